@@ -311,6 +311,8 @@ func (eng *Engine) verifyFunc(p *packages.Package, key string) (*FuncVerifier, e
 		fv.entry.vars[o] = v
 		// references passed in are allocated before entry
 		fv.assumeAllocated(v, o.Type(), 0)
+		// the objects parameters point to hold values of their field types
+		fv.assumePointeeInv(st, v, o.Type(), 0)
 		if fv.boxed[o] {
 			fv.declareVar(st, o, v)
 		} else {
@@ -370,22 +372,7 @@ func (eng *Engine) verifyFunc(p *packages.Package, key string) (*FuncVerifier, e
 		fv.entry.heaps[h] = t
 	}
 	fv.specPos = fd.Body.Rbrace
-	// modifies + requires (evaluated in the entry state)
-	var errs []string
-	for _, m := range fv.contract.Modifies {
-		fv.mods = append(fv.mods, fv.modRegions(fv.ownEnvAt(st, &errs, fd.Body.Lbrace), m.Expr)...)
-	}
-	for _, r := range fv.contract.Requires {
-		g := fv.ownEnvAt(st, &errs, fd.Body.Lbrace).eval(r.Expr)
-		fv.assumeGlobal(g.T)
-	}
-	for h, t := range st.heaps {
-		if _, ok := fv.entry.heaps[h]; !ok {
-			fv.entry.heaps[h] = t
-		}
-	}
-	fv.nEntry = len(fv.assumes)
-	fv.frames = []*frameCtx{fr}
+	entryPos := fd.Body.Lbrace
 	body := fd.Body.List
 	if fv.contract.Region != "" {
 		rb, dropped, err := findRegion(fd.Body, fv.contract.Region)
@@ -396,8 +383,26 @@ func (eng *Engine) verifyFunc(p *packages.Package, key string) (*FuncVerifier, e
 		fv.note("region " + fv.contract.Region + " of " + fkey + " verified in isolation (entry state arbitrary); dropped around it: " + strings.Join(dropped, ", "))
 		if len(rb) > 0 {
 			fv.specPos = rb[len(rb)-1].End()
+			entryPos = rb[0].Pos()
+			fv.regionStart = rb[0].Pos()
 		}
 	}
+	// modifies + requires (evaluated in the entry state)
+	var errs []string
+	for _, m := range fv.contract.Modifies {
+		fv.mods = append(fv.mods, fv.modRegions(fv.ownEnvAt(st, &errs, entryPos), m.Expr)...)
+	}
+	for _, r := range fv.contract.Requires {
+		g := fv.ownEnvAt(st, &errs, entryPos).eval(r.Expr)
+		fv.assumeGlobal(g.T)
+	}
+	for h, t := range st.heaps {
+		if _, ok := fv.entry.heaps[h]; !ok {
+			fv.entry.heaps[h] = t
+		}
+	}
+	fv.nEntry = len(fv.assumes)
+	fv.frames = []*frameCtx{fr}
 	fv.execBlock(st, body)
 	if !st.dead {
 		fv.curPos = fd.Body.Rbrace
@@ -502,7 +507,10 @@ func (fv *FuncVerifier) ownEnvAt(st *State, errs *[]string, pos token.Pos) *spec
 			return Val{}, false
 		}
 		if _, ok := env.st.vars[o]; !ok {
-			return Val{}, false
+			if fv.contract.Region == "" || env.st == fv.entry {
+				return Val{}, false
+			}
+			// region mode: locals of the enclosing function have arbitrary values at region entry
 		}
 		return fv.readVar(env.st, o), true
 	}
@@ -564,10 +572,16 @@ func (fv *FuncVerifier) checkPost(st *State, final []Val, at ast.Node) {
 	env := fv.ownEnvAt(st, &errs, fv.specPos)
 	// in postconditions parameter names denote the entry values (parameters are mutable locals in Go)
 	cur := env.resolve
+	isParam := map[string]bool{}
+	for _, in := range fv.inputs {
+		isParam[in.Name] = true
+	}
 	env.resolve = func(name string) (Val, bool) {
-		if v, ok := env.resolveOld(name); ok {
-			v.St = nil
-			return v, true
+		if isParam[name] {
+			if v, ok := env.resolveOld(name); ok {
+				v.St = nil
+				return v, true
+			}
 		}
 		return cur(name)
 	}
@@ -645,6 +659,34 @@ func (fv *FuncVerifier) lockTerm(st *State, path string) string {
 
 // findRegion resolves a structural path like "for#0/select#0/case#0" to a statement list.
 func findRegion(body *ast.BlockStmt, path string) ([]ast.Stmt, []string, error) {
+	// a trailing "+" continues with the statements that follow the enclosing select/switch/loop in its block
+	if strings.HasSuffix(path, "+") {
+		stmts, dropped, err := findRegion(body, strings.TrimSuffix(path, "+"))
+		if err != nil {
+			return nil, nil, err
+		}
+		steps := strings.Split(strings.TrimSuffix(path, "+"), "/")
+		var outer ast.Node
+		if len(steps) >= 2 {
+			// the statement containing the final clause is addressed by all but the last step
+			outer = findNode(body, strings.Join(steps[:len(steps)-1], "/"))
+		}
+		if outer != nil {
+			var rest []ast.Stmt
+			ast.Inspect(body, func(n ast.Node) bool {
+				if blk, ok := n.(*ast.BlockStmt); ok {
+					for i, s := range blk.List {
+						if s == outer {
+							rest = blk.List[i+1:]
+						}
+					}
+				}
+				return rest == nil
+			})
+			stmts = append(append([]ast.Stmt{}, stmts...), rest...)
+		}
+		return stmts, dropped, nil
+	}
 	var cur ast.Node = body
 	var dropped []string
 	for _, step := range strings.Split(path, "/") {
@@ -729,4 +771,79 @@ func findRegion(body *ast.BlockStmt, path string) ([]ast.Stmt, []string, error) 
 		}
 	}
 	return nil, nil, fmt.Errorf("path does not end in a block")
+}
+
+// assumePointeeInv assumes the type invariants of the struct a pointer parameter points to (entry heap).
+func (fv *FuncVerifier) assumePointeeInv(st *State, term string, t types.Type, depth int) {
+	if depth > 1 {
+		return
+	}
+	p, ok := t.Underlying().(*types.Pointer)
+	if !ok {
+		return
+	}
+	su, ok := p.Elem().Underlying().(*types.Struct)
+	if !ok {
+		return
+	}
+	h := fv.eng.sc.ptrHeap(p.Elem())
+	cell := "(select " + fv.heapOf(st, h) + " " + term + ")"
+	for _, c := range fv.eng.sc.typeInv(cell, p.Elem(), 0) {
+		fv.assumeGlobal(c)
+	}
+	n := fv.eng.sc.sortOf(p.Elem())
+	for i := 0; i < su.NumFields(); i++ {
+		f := su.Field(i)
+		if _, isPtr := f.Type().Underlying().(*types.Pointer); isPtr {
+			ft := "(" + fv.eng.sc.fieldSel(n, f) + " " + cell + ")"
+			fv.assumeGlobal("(< " + ft + " " + fv.alloc0 + ")")
+			fv.assumePointeeInv(st, ft, f.Type(), depth+1)
+		}
+	}
+}
+
+// findNode resolves a structural path to the node itself.
+func findNode(body *ast.BlockStmt, path string) ast.Node {
+	var cur ast.Node = body
+	for _, step := range strings.Split(path, "/") {
+		parts := strings.SplitN(step, "#", 2)
+		kind := parts[0]
+		k := 0
+		if len(parts) == 2 {
+			fmt.Sscanf(parts[1], "%d", &k)
+		}
+		var found ast.Node
+		n := 0
+		ast.Inspect(cur, func(nd ast.Node) bool {
+			if found != nil || nd == nil || nd == cur {
+				return found == nil
+			}
+			match := false
+			switch nd.(type) {
+			case *ast.ForStmt:
+				match = kind == "for"
+			case *ast.RangeStmt:
+				match = kind == "range"
+			case *ast.SelectStmt:
+				match = kind == "select"
+			case *ast.SwitchStmt:
+				match = kind == "switch"
+			case *ast.IfStmt:
+				match = kind == "if"
+			}
+			if match {
+				if n == k {
+					found = nd
+					return false
+				}
+				n++
+			}
+			return true
+		})
+		if found == nil {
+			return nil
+		}
+		cur = found
+	}
+	return cur
 }
